@@ -231,9 +231,21 @@ class World:
                 return self.report(n, "new", e.make_join_identity_relation(name=name))
             case ["apply", n, tn, opx, ["opts", pref, bt, tr, req]]:
                 t = self.pool[tn]
-                if opx[0] == "slice":
+                if opx[0] == "slice" and not (pref != "-" and opx[3] == "-"):
                     a, b, c = (self.opt_int(v) for v in opx[1:])
                     res = t[a:b:c]
+                elif opx[0] == "slice":
+                    # a slice with a preferred engine: `Slice(a, b).apply(relation, options)`
+                    from lsst.daf.relation import Slice
+
+                    a, b, _ = (self.opt_int(v) for v in opx[1:])
+                    res = Slice(start=0 if a is None else a, stop=b).apply(
+                        t,
+                        preferred_engine=self.engines[pref],
+                        backtrack=bt == "T",
+                        transfer=tr == "T",
+                        require_preferred_engine=req == "T",
+                    )
                 else:
                     op = self.uop(opx)
                     res = op.apply(
